@@ -32,6 +32,9 @@ CHECKS = {
  'C05': dict(tech='Verus contracts (Hamilton product from its definition, conjugate, inverse, norm, q v q*, rotation_from_to_3d by cases, into_angle_axis) on the extracted quaternion code + z3 (QF_NRA) lemmas for associativity, norm multiplicativity, conjugate anti-homomorphism, two-sided inverse, action == matrix, composition, from-to (generic and exactly-opposite), angle-axis round trip, glued by theorem functions',
              text='Deductive proof over all real quaternion components: Mul is the Hamilton product; associativity, identity neutral, |pq|^2=|p|^2|q|^2, conj(pq)=conj(q)conj(p), q q^-1 = q^-1 q = 1 for non-zero q; for unit q, q*v (Vec3, and Vec4 leaving w) equals Mat3/Mat4::from(q)*v in both layouts and (pq)*v = p*(q*v); rotation_from_to_3d returns a unit quaternion mapping u onto (|u|/|v|)v in the generic branch and onto -u for exactly opposite directions (both antiparallel sub-branches); into_angle_axis followed by rotation_3d reproduces a unit quaternion (unit axis, angle in [0,2pi]).',
              note=TB + 'acos_r axiom (cos(acos x)=x, sin(acos x)=sqrt(1-x^2), range) and eps_r in (0,1). The epsilon sliver of rotation_from_to_3d and the s < eps branch of into_angle_axis are only contracted, not given a property theorem.', ref='5 C05'),
+ 'C18': dict(tech='Kani (CBMC) harnesses on the real unsafe code of /repo with an ownership-tracking element type: IntoIter as a data structure (all histories of front/back pulls, then drop), conversions, slice views; unwinding assertions on',
+             text='Kani proofs on the real code, per vector type / matrix size and layout: for every history of next/next_back calls (symbolic choice per step, 0..N+2 steps) followed by dropping the iterator, each element is yielded once or dropped once, len/size_hint match, None iff exhausted; Debug/Hash/PartialEq on a partially consumed iterator touch live elements only; From<[T;N]>, into_array, into_tuple, from_iter/from_slice/collect and the matrix row/column (nested) array conversions move each element exactly once in the documented order; as_slice/as_mut_slice/Deref/AsRef/Borrow and as_row_slice/as_col_slice alias the value storage, one entry per element in declaration order (this discharges the as_slice/IndexMut contracts that the Verus units assume). Quick tier: dimensions <= 4 (+ Vec8 views); thorough: 8, 16, 32, 64.',
+             note='Trusted: Kani 0.68 / CBMC memory model and unwinding assertions; element types Tok (non-Copy), u8/u16/u64; generic T only through these instantiations; termination not proved. Genuine defect found and repaired (fix: commit): derived Debug/Hash/PartialEq on IntoIter.', ref='5 C18'),
  'C06': dict(tech='Verus contracts (cofactor/Leibniz determinant, adjugate/determinant inverse) on the extracted determinant/inverted/Mul functions + z3 (QF_NRA) lemmas for det multiplicativity, transpose invariance and M*adj/det = I, glued by Verus-checked theorem functions over the real API',
              text='Deductive proof: determinant (2,3,4; both layouts) equals the cofactor expansion; Mat4::inverted (2x2-block algorithm through the real shuffle/mat2 helper code incl. the bit-packed ShuffleMask4) returns adj(M)/det(M) whenever det != 0; theorem functions calling the real API prove det(M^T)=det(M), layout invariance, det(AB)=det(A)det(B) and M*M^-1 = M^-1*M = I for every real matrix with non-zero determinant, with the polynomial/rational identities discharged by z3 (nlsat / solve-eqs+smt portfolio).',
              note=TB + 'The rigid and affine fast inverses are not yet under contract (listed under not_decided).', ref='5 C06'),
